@@ -99,7 +99,9 @@ UnlockBy(P, s, a, m) ==
 \* ConditionVariableImpl::signal: the oldest waiter leaves the condition and turns into a locker of its mutex
 CvWake(P, s, c) ==
   IF s.cq[c] = <<>> THEN s
-  ELSE LET w == Head(s.cq[c]) IN LockFor(P, [s EXCEPT !.cq[c] = Tail(@), !.tmr[w.a] = -1], w.a, w.m, "ok")
+  ELSE LET w == Head(s.cq[c]) IN
+       IF s.ph[w.a] = "blocked" THEN LockFor(P, [s EXCEPT !.cq[c] = Tail(@), !.tmr[w.a] = -1], w.a, w.m, "ok")
+       ELSE [s EXCEPT !.cq[c] = Tail(@), !.gr[w.a] = TRUE]     \* MC granularity: its CONDVAR_WAIT becomes enabled
 
 RECURSIVE CvWakeAll(_, _, _)
 CvWakeAll(P, s, c) == IF s.cq[c] = <<>> THEN s ELSE CvWakeAll(P, CvWake(P, s, c), c)
@@ -116,15 +118,19 @@ AnswerAll(s, seq, r) == IF seq = <<>> THEN s ELSE AnswerAll(Answer(s, Head(seq),
 \* one of the receiver's activities)
 NewAct(kind, mb, src, dst, pay, sz, st, det, fin) ==
   [kind |-> kind, mb |-> mb, src |-> src, dst |-> dst, pay |-> pay, sz |-> sz, st |-> st, det |-> det, fin |-> fin,
-   rp |-> (src = 0), doom |-> FALSE]
+   rp |-> (src = 0), doom |-> FALSE, tag |-> 0, flt |-> 0]     \* tag: match data of the sender; flt: filter of the receiver
 PayloadId(s, a) == a * 1000 + s.pc[a]                       \* the driver builds the same identifier
 FinDate(P, s, d) == IF P.timed THEN s.now + P.lat + d ELSE -1      \* CM02, factors 1: latency + size / bandwidth
 StartSt(s) == IF s.loff THEN "failed" ELSE "run"          \* CommImpl::start: a failed link is detected immediately
+StartSt2(s, x, y) == IF s.loff \/ s.hoff[x] \/ s.hoff[y] THEN "failed" ELSE "run"   \* ... and so is a dead peer host
 FirstIdx(s, q, Test(_)) == LET I == { i \in 1..Len(q) : Test(s.act[q[i]]) } IN
                            IF I = {} THEN 0 ELSE CHOOSE i \in I : \A j \in I : i <= j
 RemoveAt(q, i) == SubSeq(q, 1, i - 1) \o SubSeq(q, i + 1, Len(q))
 IsRecv(c) == c.src = 0
 IsSend(c) == c.dst = 0
+\* match filters (MailboxImpl::find_matching_comm applies the filter of both sides): a filtered receive accepts only the sends
+\* carrying its tag; unfiltered requests accept everything
+Accepts(flt, tag) == flt = 0 \/ flt = tag
 Waiters(P, s, c) == { a \in Actors(P) : s.ph[a] = "blocked" /\ s.blk[a].kind = "act" /\ s.blk[a].o = c }
 
 RECURSIVE FailWaiters(_, _, _)
@@ -144,27 +150,29 @@ Complete(P, s, c) == IF s.act[c].doom THEN FailWaiters([s EXCEPT !.act[c].st = "
 
 \* CommImpl::isend on mailbox b: first queued receive in arrival order, else queue (or start at once towards the
 \* permanent receiver).  Returns the new state with s.cur[a] = the communication.
-Isend(P, s, a, b, sz, det) ==
-  LET i == FirstIdx(s, s.mbq[b], IsRecv) IN
+IsendT(P, s, a, b, sz, det, tag) ==
+  LET i == FirstIdx(s, s.mbq[b], LAMBDA c : IsRecv(c) /\ Accepts(c.flt, tag)) IN
   IF i # 0 THEN LET c == s.mbq[b][i] IN
-       [s EXCEPT !.mbq[b] = RemoveAt(@, i), !.act[c].src = a, !.act[c].pay = PayloadId(s, a), !.act[c].sz = sz,
-                 !.act[c].st = StartSt(s), !.act[c].det = det, !.act[c].fin = FinDate(P, s, sz), !.cur[a] = c]
+       [s EXCEPT !.mbq[b] = RemoveAt(@, i), !.act[c].src = a, !.act[c].pay = PayloadId(s, a), !.act[c].sz = sz, !.act[c].tag = tag,
+                 !.act[c].st = StartSt2(s, a, s.act[c].dst), !.act[c].det = det, !.act[c].fin = FinDate(P, s, sz), !.cur[a] = c]
   ELSE LET c == Len(s.act) + 1 IN
        IF P.perm[b] # 0
        THEN [s EXCEPT !.act = Append(@, NewAct("comm", b, a, P.perm[b], PayloadId(s, a), sz, StartSt(s), det, FinDate(P, s, sz))),
                       !.mdone[b] = Append(@, c), !.cur[a] = c]
-       ELSE [s EXCEPT !.act = Append(@, NewAct("comm", b, a, 0, PayloadId(s, a), sz, "wait", det, -1)),
+       ELSE [s EXCEPT !.act = Append(@, [NewAct("comm", b, a, 0, PayloadId(s, a), sz, "wait", det, -1) EXCEPT !.tag = tag]),
                       !.mbq[b] = Append(@, c), !.cur[a] = c]
 \* CommImpl::irecv: a mailbox with a permanent receiver serves its started sends first
-Irecv(P, s, a, b) ==
+IrecvF(P, s, a, b, flt) ==
   LET d == IF P.perm[b] # 0 /\ s.mdone[b] # <<>> THEN 1 ELSE 0
-      i == IF d = 1 THEN 0 ELSE FirstIdx(s, s.mbq[b], IsSend) IN
+      i == IF d = 1 THEN 0 ELSE FirstIdx(s, s.mbq[b], LAMBDA c : IsSend(c) /\ Accepts(flt, c.tag)) IN
   IF d = 1 THEN LET c == Head(s.mdone[b]) IN [s EXCEPT !.mdone[b] = Tail(@), !.act[c].dst = a, !.act[c].rp = TRUE, !.cur[a] = c]
   ELSE IF i # 0 THEN LET c == s.mbq[b][i] IN
-       [s EXCEPT !.mbq[b] = RemoveAt(@, i), !.act[c].dst = a, !.act[c].rp = TRUE, !.act[c].st = StartSt(s),
+       [s EXCEPT !.mbq[b] = RemoveAt(@, i), !.act[c].dst = a, !.act[c].rp = TRUE, !.act[c].st = StartSt2(s, s.act[c].src, a), !.act[c].flt = flt,
                  !.act[c].fin = FinDate(P, s, s.act[c].sz), !.cur[a] = c]
   ELSE LET c == Len(s.act) + 1 IN
-       [s EXCEPT !.act = Append(@, NewAct("comm", b, 0, a, 0, 0, "wait", FALSE, -1)), !.mbq[b] = Append(@, c), !.cur[a] = c]
+       [s EXCEPT !.act = Append(@, [NewAct("comm", b, 0, a, 0, 0, "wait", FALSE, -1) EXCEPT !.flt = flt]), !.mbq[b] = Append(@, c), !.cur[a] = c]
+Isend(P, s, a, b, sz, det) == IsendT(P, s, a, b, sz, det, 0)
+Irecv(P, s, a, b) == IrecvF(P, s, a, b, 0)
 \* a communication that fails as soon as it starts (link off) releases the actor already blocked on its other side
 RECURSIVE FailedStart(_, _)
 FailedStart(P, s) ==
@@ -275,7 +283,8 @@ LocalRet(P, s, a) == LET op == Cur(P, s, a) IN
                           AnswerV(s, a, "true", IF h.r /\ s.act[h.c].st = "done" THEN s.act[h.c].pay ELSE 0)       \* an asynchronous operation returns a handle
 
 \* number of simcalls of an operation (run granularity): blocking put / get / exec = start + wait
-NSubP(P, op) == IF P.gran = "mc" THEN (IF op.op \in {"lock", "acq", "bar", "put", "get"} THEN 2 ELSE 1)
+NSubP(P, op) == IF P.gran = "mc" THEN (IF op.op \in {"cvwait", "cvwaitfor"} THEN 3
+                                       ELSE IF op.op \in {"lock", "acq", "bar", "put", "get"} THEN 2 ELSE 1)
                ELSE (IF op.op \in {"put", "get", "mput", "mget", "exec"} THEN 2 ELSE 1)
 
 \* ------------------------------------------------------------------ the kernel effect of a simcall
@@ -315,6 +324,9 @@ HandleRun(P, s, a) ==
     \* ---- mailboxes (o = mailbox, t = size)
     [] k = "put"  -> IF s.sub[a] = 1 THEN Answer(FailedStart(P, Isend(P, s, a, o, op.t, FALSE)), a, "ok") ELSE WaitAct(P, s, a, s.cur[a], -1, FALSE)
     [] k = "get"  -> IF s.sub[a] = 1 THEN Answer(FailedStart(P, Irecv(P, s, a, o)), a, "ok") ELSE WaitAct(P, s, a, s.cur[a], -1, TRUE)
+    \* static Comm::send / Comm::recv with match data (p = tag / filter): isend + wait in ONE simcall
+    [] k = "sendt" -> LET n == FailedStart(P, IsendT(P, s, a, o, op.t, FALSE, op.p)) IN WaitAct(P, n, a, n.cur[a], -1, FALSE)
+    [] k = "recvf" -> LET n == FailedStart(P, IrecvF(P, s, a, o, op.p)) IN WaitAct(P, n, a, n.cur[a], -1, TRUE)
     [] k = "puta" -> Answer(Keep(FailedStart(P, Isend(P, s, a, o, op.t, FALSE)), a, FALSE), a, "ok")
     [] k = "putd" -> Answer(FailedStart(P, Isend(P, s, a, o, op.t, TRUE)), a, "ok")
     [] k = "geta" -> Answer(Keep(FailedStart(P, Irecv(P, s, a, o)), a, TRUE), a, "ok")
@@ -366,6 +378,8 @@ EnabledMC(P, s, a) ==
   LET op == Cur(P, s, a)   k == op.op   o == op.o IN
   CASE k = "lock" /\ s.sub[a] = 2 -> s.own[o] = a
     [] k \in {"acq", "bar"} /\ s.sub[a] = 2 -> s.gr[a]
+    [] k \in {"cvwait", "cvwaitfor"} /\ s.sub[a] = 2 -> s.gr[a] \/ k = "cvwaitfor"     \* notified, or a timeout is possible
+    [] k \in {"cvwait", "cvwaitfor"} /\ s.sub[a] = 3 -> s.own[op.p] = a
     [] k \in {"put", "get"} /\ s.sub[a] = 2 -> Matched(s, s.cur[a])
     [] k = "wait" -> o <= Len(s.hnd[a]) /\ Matched(s, s.hnd[a][o].c)
     [] OTHER -> TRUE
@@ -388,6 +402,20 @@ HandleMC(P, s, a) ==
          IF s.sub[a] = 2 THEN Answer([s EXCEPT !.gr[a] = FALSE], a, "ok")
          ELSE IF Len(s.bq[o]) < P.bar[o] - 1 THEN Answer([s EXCEPT !.bq[o] = Append(@, a)], a, "ok")
          ELSE Answer(GrantAll([s EXCEPT !.bq[o] = <<>>, !.bgen[o] = @ + 1, !.gr[a] = TRUE], s.bq[o]), a, "ok")
+    \* condition wait = CONDVAR_ASYNC_LOCK (unlock + enqueue) ; CONDVAR_WAIT (notified or timed out, then lock_async of the
+    \* mutex) ; MUTEX_WAIT
+    [] k \in {"cvwait", "cvwaitfor"} ->
+         IF s.sub[a] = 1 THEN (IF s.own[op.p] # a THEN Abort(s, a)
+                               ELSE Answer([UnlockBy(P, s, a, op.p) EXCEPT !.cq[o] = Append(@, [a |-> a, m |-> op.p])], a, "ok"))
+         ELSE IF s.sub[a] = 2
+         THEN LET r == IF s.gr[a] THEN "ok" ELSE "timeout"
+                  u == IF s.gr[a] THEN [s EXCEPT !.gr[a] = FALSE] ELSE [s EXCEPT !.cq[o] = RemoveFirst(@, [a |-> a, m |-> op.p])]
+                  m == op.p
+                  v == IF u.own[m] = 0 THEN [u EXCEPT !.own[m] = a, !.dep[m] = 1]
+                       ELSE IF u.own[m] = a /\ P.rec[m] THEN [u EXCEPT !.dep[m] = @ + 1]
+                       ELSE [u EXCEPT !.mq[m] = Append(@, a)] IN
+              [Answer(v, a, "ok") EXCEPT !.pres[a] = r]
+         ELSE Answer(s, a, s.pres[a])
     [] k = "put"  -> IF s.sub[a] = 1 THEN Answer(Isend(P, s, a, o, op.t, FALSE), a, "ok") ELSE WaitMC(P, s, a, s.cur[a], FALSE)
     [] k = "get"  -> IF s.sub[a] = 1 THEN Answer(Irecv(P, s, a, o), a, "ok") ELSE WaitMC(P, s, a, s.cur[a], TRUE)
     [] k = "wait" -> WaitMC(P, s, a, s.hnd[a][o].c, s.hnd[a][o].r)
@@ -500,7 +528,7 @@ SemConservation(P, s) ==
 \* C06: a waiter is in exactly one place: on the condition, or queued on / owning its mutex; it never owns the mutex
 \* while still waiting on the condition
 CvConsistency(P, s) ==
-  \A c \in Cvs(P) : \A i \in 1..Len(s.cq[c]) :
+  P.gran = "mc" \/ \A c \in Cvs(P) : \A i \in 1..Len(s.cq[c]) :
      LET w == s.cq[c][i] IN s.ph[w.a] = "blocked" /\ s.blk[w.a].kind = "cv" /\ s.blk[w.a].o = c
 
 \* C07: a barrier never holds a complete group
@@ -524,7 +552,8 @@ CommExactlyOnce(P, s) ==
   /\ \A x \in ReceivedPayloads(P, s) : \E c \in 1..Len(s.act) : s.act[c].pay = s.ov[x[1]][x[2]] /\ s.act[c].st = "done"
                                                             /\ s.act[c].dst = x[1]
   /\ \A b \in Mboxes(P) : \A i \in 1..Len(s.mbq[b]) : s.act[s.mbq[b][i]].st = "wait"
-  /\ \A b \in Mboxes(P) : ~(\E i, j \in 1..Len(s.mbq[b]) : IsSend(s.act[s.mbq[b][i]]) /\ IsRecv(s.act[s.mbq[b][j]]))
+  /\ \A b \in Mboxes(P) : ~(\E i, j \in 1..Len(s.mbq[b]) : /\ IsSend(s.act[s.mbq[b][i]]) /\ IsRecv(s.act[s.mbq[b][j]])
+                                                              /\ Accepts(s.act[s.mbq[b][j]].flt, s.act[s.mbq[b][i]].tag))
   /\ \A q \in Mqs(P) : ~(\E i, j \in 1..Len(s.mqq[q]) : IsSend(s.act[s.mqq[q][i]]) /\ IsRecv(s.act[s.mqq[q][j]]))
   /\ \A a \in Actors(P) : (s.ph[a] = "blocked" /\ s.blk[a].kind = "act") => s.act[s.blk[a].o].st \in {"wait", "run"}
 
